@@ -444,7 +444,7 @@ func main() {
 		"authority messages are delivered through the msg service router between blocks")
 	outcomes := map[int][]string{}
 	_ = outcomes
-	n := run.N(40, 2000)
+	n := run.N(160, 2000)
 	tssworld.RunCases(run, "c18", n, func(r *sim.Rng, i int) tssworld.Cfg {
 		nm := r.Range(3, 6)
 		return tssworld.Cfg{
